@@ -46,19 +46,19 @@ import (
 
 // ---------------------------------------------------------------- fake server stream
 
-type vfFakeStream struct {
+type vfsFakeStream struct {
 	ctx  context.Context
 	fail bool
 	mu   sync.Mutex
 	n    int
 }
 
-func (f *vfFakeStream) SetHeader(metadata.MD) error  { return nil }
-func (f *vfFakeStream) SendHeader(metadata.MD) error { return nil }
-func (f *vfFakeStream) SetTrailer(metadata.MD)       {}
-func (f *vfFakeStream) Context() context.Context     { return f.ctx }
-func (f *vfFakeStream) RecvMsg(any) error            { return io.EOF }
-func (f *vfFakeStream) SendMsg(m any) error {
+func (f *vfsFakeStream) SetHeader(metadata.MD) error  { return nil }
+func (f *vfsFakeStream) SendHeader(metadata.MD) error { return nil }
+func (f *vfsFakeStream) SetTrailer(metadata.MD)       {}
+func (f *vfsFakeStream) Context() context.Context     { return f.ctx }
+func (f *vfsFakeStream) RecvMsg(any) error            { return io.EOF }
+func (f *vfsFakeStream) SendMsg(m any) error {
 	f.mu.Lock()
 	defer f.mu.Unlock()
 	if f.fail {
@@ -73,15 +73,15 @@ func (f *vfFakeStream) SendMsg(m any) error {
 
 // ---------------------------------------------------------------- invokers (direct and gRPC)
 
-type vfInvoker struct {
+type vfsInvoker struct {
 	direct func(s *service, ctx context.Context, req any, sb string) (int, error)
 	grpc   func(cl protocoltypes.ProtocolServiceClient, ctx context.Context, req any) (int, error)
 	stream bool
 }
 
-func vfU[Q any, R any](d func(*service, context.Context, *Q) (*R, error),
-	c func(protocoltypes.ProtocolServiceClient, context.Context, *Q, ...grpc.CallOption) (*R, error)) vfInvoker {
-	return vfInvoker{
+func vfsU[Q any, R any](d func(*service, context.Context, *Q) (*R, error),
+	c func(protocoltypes.ProtocolServiceClient, context.Context, *Q, ...grpc.CallOption) (*R, error)) vfsInvoker {
+	return vfsInvoker{
 		direct: func(s *service, ctx context.Context, req any, _ string) (int, error) {
 			_, err := d(s, ctx, req.(*Q))
 			return 0, err
@@ -93,12 +93,12 @@ func vfU[Q any, R any](d func(*service, context.Context, *Q) (*R, error),
 	}
 }
 
-func vfS[Q any, R any](d func(*service, *Q, grpc.ServerStreamingServer[R]) error,
-	c func(protocoltypes.ProtocolServiceClient, context.Context, *Q, ...grpc.CallOption) (grpc.ServerStreamingClient[R], error)) vfInvoker {
-	return vfInvoker{
+func vfsS[Q any, R any](d func(*service, *Q, grpc.ServerStreamingServer[R]) error,
+	c func(protocoltypes.ProtocolServiceClient, context.Context, *Q, ...grpc.CallOption) (grpc.ServerStreamingClient[R], error)) vfsInvoker {
+	return vfsInvoker{
 		stream: true,
 		direct: func(s *service, ctx context.Context, req any, sb string) (int, error) {
-			fs := &vfFakeStream{ctx: ctx, fail: sb == "fail"}
+			fs := &vfsFakeStream{ctx: ctx, fail: sb == "fail"}
 			err := d(s, req.(*Q), &grpc.GenericServerStream[Q, R]{ServerStream: fs})
 			return fs.n, err
 		},
@@ -122,60 +122,60 @@ func vfS[Q any, R any](d func(*service, *Q, grpc.ServerStreamingServer[R]) error
 	}
 }
 
-type vfPC = protocoltypes.ProtocolServiceClient
+type vfsPC = protocoltypes.ProtocolServiceClient
 
-var vfInvokers = map[string]vfInvoker{
-	"ServiceExportData":                         vfS((*service).ServiceExportData, vfPC.ServiceExportData),
-	"ServiceGetConfiguration":                   vfU((*service).ServiceGetConfiguration, vfPC.ServiceGetConfiguration),
-	"ContactRequestReference":                   vfU((*service).ContactRequestReference, vfPC.ContactRequestReference),
-	"ContactRequestDisable":                     vfU((*service).ContactRequestDisable, vfPC.ContactRequestDisable),
-	"ContactRequestEnable":                      vfU((*service).ContactRequestEnable, vfPC.ContactRequestEnable),
-	"ContactRequestResetReference":              vfU((*service).ContactRequestResetReference, vfPC.ContactRequestResetReference),
-	"ContactRequestSend":                        vfU((*service).ContactRequestSend, vfPC.ContactRequestSend),
-	"ContactRequestAccept":                      vfU((*service).ContactRequestAccept, vfPC.ContactRequestAccept),
-	"ContactRequestDiscard":                     vfU((*service).ContactRequestDiscard, vfPC.ContactRequestDiscard),
-	"ShareContact":                              vfU((*service).ShareContact, vfPC.ShareContact),
-	"DecodeContact":                             vfU((*service).DecodeContact, vfPC.DecodeContact),
-	"ContactBlock":                              vfU((*service).ContactBlock, vfPC.ContactBlock),
-	"ContactUnblock":                            vfU((*service).ContactUnblock, vfPC.ContactUnblock),
-	"ContactAliasKeySend":                       vfU((*service).ContactAliasKeySend, vfPC.ContactAliasKeySend),
-	"MultiMemberGroupCreate":                    vfU((*service).MultiMemberGroupCreate, vfPC.MultiMemberGroupCreate),
-	"MultiMemberGroupJoin":                      vfU((*service).MultiMemberGroupJoin, vfPC.MultiMemberGroupJoin),
-	"MultiMemberGroupLeave":                     vfU((*service).MultiMemberGroupLeave, vfPC.MultiMemberGroupLeave),
-	"MultiMemberGroupAliasResolverDisclose":     vfU((*service).MultiMemberGroupAliasResolverDisclose, vfPC.MultiMemberGroupAliasResolverDisclose),
-	"MultiMemberGroupAdminRoleGrant":            vfU((*service).MultiMemberGroupAdminRoleGrant, vfPC.MultiMemberGroupAdminRoleGrant),
-	"MultiMemberGroupInvitationCreate":          vfU((*service).MultiMemberGroupInvitationCreate, vfPC.MultiMemberGroupInvitationCreate),
-	"AppMetadataSend":                           vfU((*service).AppMetadataSend, vfPC.AppMetadataSend),
-	"AppMessageSend":                            vfU((*service).AppMessageSend, vfPC.AppMessageSend),
-	"GroupMetadataList":                         vfS((*service).GroupMetadataList, vfPC.GroupMetadataList),
-	"GroupMessageList":                          vfS((*service).GroupMessageList, vfPC.GroupMessageList),
-	"GroupInfo":                                 vfU((*service).GroupInfo, vfPC.GroupInfo),
-	"ActivateGroup":                             vfU((*service).ActivateGroup, vfPC.ActivateGroup),
-	"DeactivateGroup":                           vfU((*service).DeactivateGroup, vfPC.DeactivateGroup),
-	"GroupDeviceStatus":                         vfS((*service).GroupDeviceStatus, vfPC.GroupDeviceStatus),
-	"DebugListGroups":                           vfS((*service).DebugListGroups, vfPC.DebugListGroups),
-	"DebugInspectGroupStore":                    vfS((*service).DebugInspectGroupStore, vfPC.DebugInspectGroupStore),
-	"DebugGroup":                                vfU((*service).DebugGroup, vfPC.DebugGroup),
-	"SystemInfo":                                vfU((*service).SystemInfo, vfPC.SystemInfo),
-	"CredentialVerificationServiceInitFlow":     vfU((*service).CredentialVerificationServiceInitFlow, vfPC.CredentialVerificationServiceInitFlow),
-	"CredentialVerificationServiceCompleteFlow": vfU((*service).CredentialVerificationServiceCompleteFlow, vfPC.CredentialVerificationServiceCompleteFlow),
-	"VerifiedCredentialsList":                   vfS((*service).VerifiedCredentialsList, vfPC.VerifiedCredentialsList),
-	"ReplicationServiceRegisterGroup":           vfU((*service).ReplicationServiceRegisterGroup, vfPC.ReplicationServiceRegisterGroup),
-	"PeerList":                                  vfU((*service).PeerList, vfPC.PeerList),
-	"OutOfStoreReceive":                         vfU((*service).OutOfStoreReceive, vfPC.OutOfStoreReceive),
-	"OutOfStoreSeal":                            vfU((*service).OutOfStoreSeal, vfPC.OutOfStoreSeal),
-	"RefreshContactRequest":                     vfU((*service).RefreshContactRequest, vfPC.RefreshContactRequest),
+var vfsInvokers = map[string]vfsInvoker{
+	"ServiceExportData":                         vfsS((*service).ServiceExportData, vfsPC.ServiceExportData),
+	"ServiceGetConfiguration":                   vfsU((*service).ServiceGetConfiguration, vfsPC.ServiceGetConfiguration),
+	"ContactRequestReference":                   vfsU((*service).ContactRequestReference, vfsPC.ContactRequestReference),
+	"ContactRequestDisable":                     vfsU((*service).ContactRequestDisable, vfsPC.ContactRequestDisable),
+	"ContactRequestEnable":                      vfsU((*service).ContactRequestEnable, vfsPC.ContactRequestEnable),
+	"ContactRequestResetReference":              vfsU((*service).ContactRequestResetReference, vfsPC.ContactRequestResetReference),
+	"ContactRequestSend":                        vfsU((*service).ContactRequestSend, vfsPC.ContactRequestSend),
+	"ContactRequestAccept":                      vfsU((*service).ContactRequestAccept, vfsPC.ContactRequestAccept),
+	"ContactRequestDiscard":                     vfsU((*service).ContactRequestDiscard, vfsPC.ContactRequestDiscard),
+	"ShareContact":                              vfsU((*service).ShareContact, vfsPC.ShareContact),
+	"DecodeContact":                             vfsU((*service).DecodeContact, vfsPC.DecodeContact),
+	"ContactBlock":                              vfsU((*service).ContactBlock, vfsPC.ContactBlock),
+	"ContactUnblock":                            vfsU((*service).ContactUnblock, vfsPC.ContactUnblock),
+	"ContactAliasKeySend":                       vfsU((*service).ContactAliasKeySend, vfsPC.ContactAliasKeySend),
+	"MultiMemberGroupCreate":                    vfsU((*service).MultiMemberGroupCreate, vfsPC.MultiMemberGroupCreate),
+	"MultiMemberGroupJoin":                      vfsU((*service).MultiMemberGroupJoin, vfsPC.MultiMemberGroupJoin),
+	"MultiMemberGroupLeave":                     vfsU((*service).MultiMemberGroupLeave, vfsPC.MultiMemberGroupLeave),
+	"MultiMemberGroupAliasResolverDisclose":     vfsU((*service).MultiMemberGroupAliasResolverDisclose, vfsPC.MultiMemberGroupAliasResolverDisclose),
+	"MultiMemberGroupAdminRoleGrant":            vfsU((*service).MultiMemberGroupAdminRoleGrant, vfsPC.MultiMemberGroupAdminRoleGrant),
+	"MultiMemberGroupInvitationCreate":          vfsU((*service).MultiMemberGroupInvitationCreate, vfsPC.MultiMemberGroupInvitationCreate),
+	"AppMetadataSend":                           vfsU((*service).AppMetadataSend, vfsPC.AppMetadataSend),
+	"AppMessageSend":                            vfsU((*service).AppMessageSend, vfsPC.AppMessageSend),
+	"GroupMetadataList":                         vfsS((*service).GroupMetadataList, vfsPC.GroupMetadataList),
+	"GroupMessageList":                          vfsS((*service).GroupMessageList, vfsPC.GroupMessageList),
+	"GroupInfo":                                 vfsU((*service).GroupInfo, vfsPC.GroupInfo),
+	"ActivateGroup":                             vfsU((*service).ActivateGroup, vfsPC.ActivateGroup),
+	"DeactivateGroup":                           vfsU((*service).DeactivateGroup, vfsPC.DeactivateGroup),
+	"GroupDeviceStatus":                         vfsS((*service).GroupDeviceStatus, vfsPC.GroupDeviceStatus),
+	"DebugListGroups":                           vfsS((*service).DebugListGroups, vfsPC.DebugListGroups),
+	"DebugInspectGroupStore":                    vfsS((*service).DebugInspectGroupStore, vfsPC.DebugInspectGroupStore),
+	"DebugGroup":                                vfsU((*service).DebugGroup, vfsPC.DebugGroup),
+	"SystemInfo":                                vfsU((*service).SystemInfo, vfsPC.SystemInfo),
+	"CredentialVerificationServiceInitFlow":     vfsU((*service).CredentialVerificationServiceInitFlow, vfsPC.CredentialVerificationServiceInitFlow),
+	"CredentialVerificationServiceCompleteFlow": vfsU((*service).CredentialVerificationServiceCompleteFlow, vfsPC.CredentialVerificationServiceCompleteFlow),
+	"VerifiedCredentialsList":                   vfsS((*service).VerifiedCredentialsList, vfsPC.VerifiedCredentialsList),
+	"ReplicationServiceRegisterGroup":           vfsU((*service).ReplicationServiceRegisterGroup, vfsPC.ReplicationServiceRegisterGroup),
+	"PeerList":                                  vfsU((*service).PeerList, vfsPC.PeerList),
+	"OutOfStoreReceive":                         vfsU((*service).OutOfStoreReceive, vfsPC.OutOfStoreReceive),
+	"OutOfStoreSeal":                            vfsU((*service).OutOfStoreSeal, vfsPC.OutOfStoreSeal),
+	"RefreshContactRequest":                     vfsU((*service).RefreshContactRequest, vfsPC.RefreshContactRequest),
 }
 
 // ---------------------------------------------------------------- the world: one reusable service
 
-type vfContact struct {
+type vfsContact struct {
 	pk   crypto.PubKey
 	raw  []byte
 	seed []byte
 }
 
-type vfSvc struct {
+type vfsSvc struct {
 	t       testing.TB
 	ctx     context.Context
 	tp      *TestingProtocol
@@ -190,7 +190,7 @@ type vfSvc struct {
 	gmMetaID []byte
 	oosValid []byte
 	shared   []byte
-	contacts map[string]*vfContact
+	contacts map[string]*vfsContact
 	dirty    map[string]bool
 	gc       *protocoltypes.Group
 	odd      *protocoltypes.Group // last oddly shaped group handed to MultiMemberGroupJoin
@@ -198,41 +198,41 @@ type vfSvc struct {
 	calls    int
 }
 
-func vfMustOK(err error, what string) {
+func vfsMustOK(err error, what string) {
 	if err != nil {
 		vfInfra("setup: %s: %v", what, err)
 	}
 }
 
-func vfNewKey() (crypto.PubKey, []byte) {
+func vfsNewKey() (crypto.PubKey, []byte) {
 	_, pub, err := crypto.GenerateEd25519Key(crand.Reader)
-	vfMustOK(err, "keygen")
+	vfsMustOK(err, "keygen")
 	raw, err := pub.Raw()
-	vfMustOK(err, "raw")
+	vfsMustOK(err, "raw")
 	return pub, raw
 }
 
-func vfNewSvc(t testing.TB, salt int64) *vfSvc {
+func vfsNewSvc(t testing.TB, salt int64) *vfsSvc {
 	ctx := context.Background()
 	mn := mocknet.New()
 	tp, cleanup := NewTestingProtocol(ctx, t, &TestingOpts{Mocknet: mn, DiscoveryServer: tinder.NewMockDriverServer()}, nil)
-	w := &vfSvc{t: t, ctx: ctx, tp: tp, s: tp.Service.(*service), rnd: vfRand(salt),
-		contacts: map[string]*vfContact{}, dirty: map[string]bool{}}
+	w := &vfsSvc{t: t, ctx: ctx, tp: tp, s: tp.Service.(*service), rnd: vfRand(salt),
+		contacts: map[string]*vfsContact{}, dirty: map[string]bool{}}
 	w.cleanup = func() { cleanup(); _ = mn.Close() }
 	cfg, err := w.s.ServiceGetConfiguration(ctx, &protocoltypes.ServiceGetConfiguration_Request{})
-	vfMustOK(err, "configuration")
+	vfsMustOK(err, "configuration")
 	w.acctPK, w.selfPK = cfg.AccountGroupPk, cfg.AccountPk
 	// gm: a multi-member group created (joined + activated) by this account, with one message and one metadata entry
 	cr, err := w.s.MultiMemberGroupCreate(ctx, &protocoltypes.MultiMemberGroupCreate_Request{})
-	vfMustOK(err, "create gm")
+	vfsMustOK(err, "create gm")
 	inv, err := w.s.MultiMemberGroupInvitationCreate(ctx, &protocoltypes.MultiMemberGroupInvitationCreate_Request{GroupPk: cr.GroupPk})
-	vfMustOK(err, "invitation gm")
+	vfsMustOK(err, "invitation gm")
 	w.gm = inv.Group
 	ms, err := w.s.AppMessageSend(ctx, &protocoltypes.AppMessageSend_Request{GroupPk: cr.GroupPk, Payload: []byte("vf message")})
-	vfMustOK(err, "message gm")
+	vfsMustOK(err, "message gm")
 	w.gmMsgCID = ms.Cid
 	md, err := w.s.AppMetadataSend(ctx, &protocoltypes.AppMetadataSend_Request{GroupPk: cr.GroupPk, Payload: []byte("vf metadata")})
-	vfMustOK(err, "metadata gm")
+	vfsMustOK(err, "metadata gm")
 	w.gmMetaID = md.Cid
 	if sealed, err := w.s.OutOfStoreSeal(ctx, &protocoltypes.OutOfStoreSeal_Request{Cid: ms.Cid, GroupPublicKey: cr.GroupPk}); err == nil {
 		w.oosValid = sealed.Encrypted
@@ -240,7 +240,7 @@ func vfNewSvc(t testing.TB, salt int64) *vfSvc {
 		vfInfra("setup: cannot seal out-of-store message: %v", err)
 	}
 	sh, err := w.s.ShareContact(ctx, &protocoltypes.ShareContact_Request{})
-	vfMustOK(err, "share contact")
+	vfsMustOK(err, "share contact")
 	w.shared = sh.EncodedContact
 	for _, c := range []string{"ct", "cr", "ca", "cb"} {
 		w.dirty[c] = true
@@ -249,7 +249,7 @@ func vfNewSvc(t testing.TB, salt int64) *vfSvc {
 	return w
 }
 
-func (w *vfSvc) close() {
+func (w *vfsSvc) close() {
 	done := make(chan struct{})
 	go func() { defer close(done); defer func() { _ = recover() }(); w.cleanup() }()
 	select {
@@ -259,63 +259,63 @@ func (w *vfSvc) close() {
 	}
 }
 
-func (w *vfSvc) isOpen(pk []byte) bool {
+func (w *vfsSvc) isOpen(pk []byte) bool {
 	w.s.lock.RLock()
 	defer w.s.lock.RUnlock()
 	_, ok := w.s.openedGroups[string(pk)]
 	return ok
 }
 
-func (w *vfSvc) acctOpen() bool { return w.s.getAccountGroup() != nil }
+func (w *vfsSvc) acctOpen() bool { return w.s.getAccountGroup() != nil }
 
-func (w *vfSvc) activate(pk []byte, what string) {
+func (w *vfsSvc) activate(pk []byte, what string) {
 	_, err := w.s.ActivateGroup(w.ctx, &protocoltypes.ActivateGroup_Request{GroupPk: pk})
-	vfMustOK(err, "reset: activate "+what)
+	vfsMustOK(err, "reset: activate "+what)
 }
 
 // newContact brings a fresh contact into the lifecycle state the model names it after
-func (w *vfSvc) newContact(name string) {
-	pk, raw := vfNewKey()
+func (w *vfsSvc) newContact(name string) {
+	pk, raw := vfsNewKey()
 	seed := make([]byte, 32)
 	w.rnd.Read(seed)
-	c := &vfContact{pk: pk, raw: raw, seed: seed}
+	c := &vfsContact{pk: pk, raw: raw, seed: seed}
 	ms := w.s.getAccountGroup().MetadataStore()
 	sc := &protocoltypes.ShareableContact{Pk: raw, PublicRendezvousSeed: seed}
 	switch name {
 	case "ct":
 		_, err := w.s.ContactRequestSend(w.ctx, &protocoltypes.ContactRequestSend_Request{Contact: sc})
-		vfMustOK(err, "contact ct")
+		vfsMustOK(err, "contact ct")
 	case "cr":
 		_, err := ms.ContactRequestIncomingReceived(w.ctx, sc)
-		vfMustOK(err, "contact cr")
+		vfsMustOK(err, "contact cr")
 	case "ca":
 		_, err := ms.ContactRequestIncomingReceived(w.ctx, sc)
-		vfMustOK(err, "contact ca (received)")
+		vfsMustOK(err, "contact ca (received)")
 		_, err = w.s.ContactRequestAccept(w.ctx, &protocoltypes.ContactRequestAccept_Request{ContactPk: raw})
-		vfMustOK(err, "contact ca (accept)")
+		vfsMustOK(err, "contact ca (accept)")
 		if w.gc != nil && w.isOpen(w.gc.PublicKey) {
 			_, _ = w.s.DeactivateGroup(w.ctx, &protocoltypes.DeactivateGroup_Request{GroupPk: w.gc.PublicKey})
 		}
 		g, err := w.s.secretStore.GetGroupForContact(pk)
-		vfMustOK(err, "contact group")
+		vfsMustOK(err, "contact group")
 		w.gc = g
 	case "cb":
 		_, err := w.s.ContactBlock(w.ctx, &protocoltypes.ContactBlock_Request{ContactPk: raw})
-		vfMustOK(err, "contact cb")
+		vfsMustOK(err, "contact cb")
 	}
 	w.contacts[name] = c
 	delete(w.dirty, name)
 }
 
 // reset restores the canonical initial abstract state: everything open, gm joined, one contact per lifecycle state
-func (w *vfSvc) reset() {
+func (w *vfsSvc) reset() {
 	if !w.acctOpen() {
 		w.activate(w.acctPK, "account group")
 	}
 	ms := w.s.getAccountGroup().MetadataStore()
 	if !ms.checkIfInGroup(w.gm.PublicKey) {
 		_, err := ms.GroupJoin(w.ctx, w.gm)
-		vfMustOK(err, "reset: rejoin gm")
+		vfsMustOK(err, "reset: rejoin gm")
 	}
 	if !w.isOpen(w.gm.PublicKey) {
 		w.activate(w.gm.PublicKey, "gm")
@@ -323,7 +323,7 @@ func (w *vfSvc) reset() {
 	// a tracked contact that is no longer in the lifecycle state it is named after is replaced by a fresh one
 	want := map[string]string{"ct": "T", "cr": "R", "ca": "A", "cb": "B"}
 	for c, k := range w.contacts {
-		if vfStateNames[ms.getContactStatus(k.pk)] != want[c] {
+		if vfsStateNames[ms.getContactStatus(k.pk)] != want[c] {
 			w.dirty[c] = true
 		}
 	}
@@ -344,7 +344,7 @@ func (w *vfSvc) reset() {
 	w.odd = nil
 }
 
-var vfStateNames = map[protocoltypes.ContactState]string{
+var vfsStateNames = map[protocoltypes.ContactState]string{
 	protocoltypes.ContactState_ContactStateUndefined: "U", protocoltypes.ContactState_ContactStateToRequest: "T",
 	protocoltypes.ContactState_ContactStateReceived: "R", protocoltypes.ContactState_ContactStateAdded: "A",
 	protocoltypes.ContactState_ContactStateRemoved: "X", protocoltypes.ContactState_ContactStateDiscarded: "D",
@@ -352,7 +352,7 @@ var vfStateNames = map[protocoltypes.ContactState]string{
 }
 
 // proj: the abstract state as far as it can be read off the real service
-func (w *vfSvc) proj() map[string]any {
+func (w *vfsSvc) proj() map[string]any {
 	ag := w.s.getAccountGroup()
 	st := map[string]any{"acct": ag != nil, "gm": w.isOpen(w.gm.PublicKey), "gc": w.isOpen(w.gc.PublicKey), "gmj": "?"}
 	cs := map[string]any{}
@@ -369,7 +369,7 @@ func (w *vfSvc) proj() map[string]any {
 				st["gmj"] = "n"
 			}
 			for c, k := range w.contacts {
-				cs[c] = vfStateNames[ms.getContactStatus(k.pk)]
+				cs[c] = vfsStateNames[ms.getContactStatus(k.pk)]
 			}
 		}()
 	}
@@ -379,19 +379,19 @@ func (w *vfSvc) proj() map[string]any {
 
 // ---------------------------------------------------------------- concretisation of shapes
 
-var vfShortSizes = []int{1, 2, 16, 31}
-var vfOverSizes = []int{33, 64, 65, 1024, 65536}
+var vfsShortSizes = []int{1, 2, 16, 31}
+var vfsOverSizes = []int{33, 64, 65, 1024, 65536}
 
-func vfBytes(r *rand.Rand, n int) []byte {
+func vfsBytes(r *rand.Rand, n int) []byte {
 	b := make([]byte, n)
 	r.Read(b)
 	return b
 }
 
 // 32 bytes that are not the encoding of a curve point
-func vfNonPoint(r *rand.Rand) []byte {
+func vfsNonPoint(r *rand.Rand) []byte {
 	for i := 0; i < 1000; i++ {
-		b := vfBytes(r, 32)
+		b := vfsBytes(r, 32)
 		if _, err := new(edwards25519.Point).SetBytes(b); err != nil {
 			return b
 		}
@@ -401,9 +401,9 @@ func vfNonPoint(r *rand.Rand) []byte {
 }
 
 // bytes that no protobuf message decodes
-func vfUndecodable(r *rand.Rand, n int, m proto.Message) []byte {
+func vfsUndecodable(r *rand.Rand, n int, m proto.Message) []byte {
 	for i := 0; i < 1000; i++ {
-		b := vfBytes(r, n)
+		b := vfsBytes(r, n)
 		b[0] = 0x07 | (b[0] & 0xf8) // wire type 7 does not exist
 		if proto.Unmarshal(b, proto.Clone(m)) != nil {
 			return b
@@ -413,20 +413,20 @@ func vfUndecodable(r *rand.Rand, n int, m proto.Message) []byte {
 	return nil
 }
 
-func (w *vfSvc) key(k string, r *rand.Rand) []byte {
+func (w *vfsSvc) key(k string, r *rand.Rand) []byte {
 	switch k {
 	case "nil", "-":
 		return nil
 	case "empty":
 		return []byte{}
 	case "short":
-		return vfBytes(r, vfShortSizes[r.Intn(len(vfShortSizes))])
+		return vfsBytes(r, vfsShortSizes[r.Intn(len(vfsShortSizes))])
 	case "garb":
-		return vfNonPoint(r)
+		return vfsNonPoint(r)
 	case "over":
-		return vfBytes(r, vfOverSizes[r.Intn(len(vfOverSizes))])
+		return vfsBytes(r, vfsOverSizes[r.Intn(len(vfsOverSizes))])
 	case "unk":
-		_, raw := vfNewKey()
+		_, raw := vfsNewKey()
 		return raw
 	case "acct":
 		return w.acctPK
@@ -448,18 +448,18 @@ func (w *vfSvc) key(k string, r *rand.Rand) []byte {
 	return nil
 }
 
-func vfRandomCID(r *rand.Rand) []byte {
-	h, err := mh.Sum(vfBytes(r, 32), mh.SHA2_256, -1)
-	vfMustOK(err, "multihash")
+func vfsRandomCID(r *rand.Rand) []byte {
+	h, err := mh.Sum(vfsBytes(r, 32), mh.SHA2_256, -1)
+	vfsMustOK(err, "multihash")
 	return cid.NewCidV1(cid.DagCBOR, h).Bytes()
 }
 
-func (w *vfSvc) oddGroup(p string, r *rand.Rand) *protocoltypes.Group {
+func (w *vfsSvc) oddGroup(p string, r *rand.Rand) *protocoltypes.Group {
 	g, sk, err := NewGroupMultiMember()
-	vfMustOK(err, "new group")
+	vfsMustOK(err, "new group")
 	resign := func() {
 		sig, err := sk.Sign(g.Secret)
-		vfMustOK(err, "sign")
+		vfsMustOK(err, "sign")
 		g.SecretSig = sig
 	}
 	switch p {
@@ -467,14 +467,14 @@ func (w *vfSvc) oddGroup(p string, r *rand.Rand) *protocoltypes.Group {
 	case "badsig":
 		g.SecretSig[r.Intn(len(g.SecretSig))] ^= 1 << uint(r.Intn(8))
 	case "garb":
-		g = &protocoltypes.Group{PublicKey: vfBytes(r, 32), Secret: vfBytes(r, 32), SecretSig: vfBytes(r, 64), GroupType: protocoltypes.GroupType_GroupTypeMultiMember}
+		g = &protocoltypes.Group{PublicKey: vfsBytes(r, 32), Secret: vfsBytes(r, 32), SecretSig: vfsBytes(r, 64), GroupType: protocoltypes.GroupType_GroupTypeMultiMember}
 	case "nopk":
 		g.PublicKey = nil
 	case "shortsecret":
-		g.Secret = vfBytes(r, []int{1, 5, 31}[r.Intn(3)])
+		g.Secret = vfsBytes(r, []int{1, 5, 31}[r.Intn(3)])
 		resign()
 	case "over":
-		g.Secret = vfBytes(r, []int{33, 64, 65536}[r.Intn(3)])
+		g.Secret = vfsBytes(r, []int{33, 64, 65536}[r.Intn(3)])
 		resign()
 	case "typecontact":
 		g.GroupType = protocoltypes.GroupType_GroupTypeContact
@@ -484,7 +484,7 @@ func (w *vfSvc) oddGroup(p string, r *rand.Rand) *protocoltypes.Group {
 	return g
 }
 
-func (w *vfSvc) listReq(rpc string, a vfShape, r *rand.Rand) (gpk, since, until []byte, sinceNow, untilNow, reverse bool) {
+func (w *vfsSvc) listReq(rpc string, a vfsShape, r *rand.Rand) (gpk, since, until []byte, sinceNow, untilNow, reverse bool) {
 	gpk = w.key(a.K, r)
 	known := w.gmMetaID
 	if rpc == "GroupMessageList" {
@@ -505,9 +505,9 @@ func (w *vfSvc) listReq(rpc string, a vfShape, r *rand.Rand) (gpk, since, until 
 	case "revnow":
 		reverse, untilNow = true, true
 	case "garbid":
-		since, untilNow = vfBytes(r, 5), true
+		since, untilNow = vfsBytes(r, 5), true
 	case "unkid":
-		since, untilNow = vfRandomCID(r), true
+		since, untilNow = vfsRandomCID(r), true
 	case "knownid":
 		since, untilNow = known, true
 	default:
@@ -516,10 +516,10 @@ func (w *vfSvc) listReq(rpc string, a vfShape, r *rand.Rand) (gpk, since, until 
 	return
 }
 
-type vfShape struct{ K, P, S string }
+type vfsShape struct{ K, P, S string }
 
 // build concretises the request of one RPC from its shape
-func (w *vfSvc) build(rpc string, a vfShape, r *rand.Rand) any {
+func (w *vfsSvc) build(rpc string, a vfsShape, r *rand.Rand) any {
 	pt := protocoltypes.ShareableContact{}
 	_ = pt
 	switch rpc {
@@ -553,19 +553,19 @@ func (w *vfSvc) build(rpc string, a vfShape, r *rand.Rand) any {
 		req := &protocoltypes.ContactRequestSend_Request{Contact: sc}
 		switch a.P {
 		case "ok":
-			sc.PublicRendezvousSeed = vfBytes(r, 32)
+			sc.PublicRendezvousSeed = vfsBytes(r, 32)
 			if c, ok := w.contacts[a.K]; ok {
 				sc.PublicRendezvousSeed = c.seed
 			}
 		case "nil":
 		case "short":
-			sc.PublicRendezvousSeed = vfBytes(r, vfShortSizes[r.Intn(len(vfShortSizes))])
+			sc.PublicRendezvousSeed = vfsBytes(r, vfsShortSizes[r.Intn(len(vfsShortSizes))])
 		case "over":
-			sc.PublicRendezvousSeed = vfBytes(r, vfOverSizes[r.Intn(len(vfOverSizes))])
+			sc.PublicRendezvousSeed = vfsBytes(r, vfsOverSizes[r.Intn(len(vfsOverSizes))])
 		case "bigmeta":
-			sc.PublicRendezvousSeed = vfBytes(r, 32)
-			sc.Metadata = vfBytes(r, 65536)
-			req.OwnMetadata = vfBytes(r, 65536)
+			sc.PublicRendezvousSeed = vfsBytes(r, 32)
+			sc.Metadata = vfsBytes(r, 65536)
+			req.OwnMetadata = vfsBytes(r, 65536)
 		default:
 			vfInfra("unknown seed shape %q", a.P)
 		}
@@ -587,11 +587,11 @@ func (w *vfSvc) build(rpc string, a vfShape, r *rand.Rand) any {
 		case "empty":
 			b = []byte{}
 		case "short":
-			b = vfUndecodable(r, 1+r.Intn(3), &protocoltypes.ShareableContact{})
+			b = vfsUndecodable(r, 1+r.Intn(3), &protocoltypes.ShareableContact{})
 		case "garb":
-			b = vfUndecodable(r, 40+r.Intn(40), &protocoltypes.ShareableContact{})
+			b = vfsUndecodable(r, 40+r.Intn(40), &protocoltypes.ShareableContact{})
 		case "over":
-			b = vfUndecodable(r, 65536, &protocoltypes.ShareableContact{})
+			b = vfsUndecodable(r, 65536, &protocoltypes.ShareableContact{})
 		case "valid":
 			b = w.shared
 		default:
@@ -607,7 +607,7 @@ func (w *vfSvc) build(rpc string, a vfShape, r *rand.Rand) any {
 	case "MultiMemberGroupInvitationCreate":
 		return &protocoltypes.MultiMemberGroupInvitationCreate_Request{GroupPk: w.key(a.K, r)}
 	case "MultiMemberGroupAdminRoleGrant":
-		return &protocoltypes.MultiMemberGroupAdminRoleGrant_Request{GroupPk: w.key(a.K, r), MemberPk: vfBytes(r, 32)}
+		return &protocoltypes.MultiMemberGroupAdminRoleGrant_Request{GroupPk: w.key(a.K, r), MemberPk: vfsBytes(r, 32)}
 	case "DeactivateGroup":
 		return &protocoltypes.DeactivateGroup_Request{GroupPk: w.key(a.K, r)}
 	case "DebugGroup":
@@ -642,7 +642,7 @@ func (w *vfSvc) build(rpc string, a vfShape, r *rand.Rand) any {
 		case "small":
 			pl = vfPayload(r, r.Intn(len(vfSizes)))
 		case "over":
-			pl = vfBytes(r, 256*1024)
+			pl = vfsBytes(r, 256*1024)
 		default:
 			vfInfra("unknown payload shape %q", a.P)
 		}
@@ -671,7 +671,7 @@ func (w *vfSvc) build(rpc string, a vfShape, r *rand.Rand) any {
 		case "nil":
 			req.PublicKey = nil
 		case "garb":
-			req.PublicKey = vfBytes(r, 32)
+			req.PublicKey = vfsBytes(r, 32)
 		case "badurl":
 			req.ServiceUrl = "::not a url::\x7f"
 		default:
@@ -680,12 +680,12 @@ func (w *vfSvc) build(rpc string, a vfShape, r *rand.Rand) any {
 		return req
 	case "CredentialVerificationServiceCompleteFlow":
 		uri := map[string]string{"empty": "", "garb": "::%%%\x7f", "nocred": "berty://vc/proof?state=",
-			"badcred": "berty://vc/proof?state=&credentials=" + string(vfAlnum(r, 40))}[a.P]
+			"badcred": "berty://vc/proof?state=&credentials=" + string(vfsAlnum(r, 40))}[a.P]
 		return &protocoltypes.CredentialVerificationServiceCompleteFlow_Request{CallbackUri: uri}
 	case "VerifiedCredentialsList":
 		req := &protocoltypes.VerifiedCredentialsList_Request{}
 		if a.P == "filters" {
-			req.FilterIdentifier, req.FilterIssuer, req.ExcludeExpired = string(vfAlnum(r, 12)), string(vfAlnum(r, 12)), true
+			req.FilterIdentifier, req.FilterIssuer, req.ExcludeExpired = string(vfsAlnum(r, 12)), string(vfsAlnum(r, 12)), true
 		}
 		return req
 	case "ReplicationServiceRegisterGroup":
@@ -708,18 +708,18 @@ func (w *vfSvc) build(rpc string, a vfShape, r *rand.Rand) any {
 		case "empty":
 			b = []byte{}
 		case "short":
-			b = vfUndecodable(r, 1+r.Intn(3), env)
+			b = vfsUndecodable(r, 1+r.Intn(3), env)
 		case "garb":
-			b = vfUndecodable(r, 64+r.Intn(64), env)
+			b = vfsUndecodable(r, 64+r.Intn(64), env)
 		case "over":
-			b = vfUndecodable(r, 65536, env)
+			b = vfsUndecodable(r, 65536, env)
 		case "badref":
-			b, _ = proto.Marshal(&protocoltypes.OutOfStoreMessageEnvelope{Nonce: vfBytes(r, 24), Box: vfBytes(r, 80), GroupReference: vfBytes(r, 32)})
+			b, _ = proto.Marshal(&protocoltypes.OutOfStoreMessageEnvelope{Nonce: vfsBytes(r, 24), Box: vfsBytes(r, 80), GroupReference: vfsBytes(r, 32)})
 		case "badbox":
-			vfMustOK(proto.Unmarshal(w.oosValid, env), "valid envelope")
+			vfsMustOK(proto.Unmarshal(w.oosValid, env), "valid envelope")
 			switch r.Intn(3) {
 			case 0:
-				env.Box = vfBytes(r, len(env.Box))
+				env.Box = vfsBytes(r, len(env.Box))
 			case 1:
 				env.Nonce = env.Nonce[:r.Intn(len(env.Nonce))]
 			default:
@@ -737,9 +737,9 @@ func (w *vfSvc) build(rpc string, a vfShape, r *rand.Rand) any {
 		switch a.P {
 		case "nil":
 		case "garb":
-			c = vfBytes(r, 1+r.Intn(40))
+			c = vfsBytes(r, 1+r.Intn(40))
 		case "unkcid":
-			c = vfRandomCID(r)
+			c = vfsRandomCID(r)
 		case "known":
 			c = w.gmMsgCID
 		default:
@@ -751,7 +751,7 @@ func (w *vfSvc) build(rpc string, a vfShape, r *rand.Rand) any {
 	return nil
 }
 
-func vfAlnum(r *rand.Rand, n int) []byte {
+func vfsAlnum(r *rand.Rand, n int) []byte {
 	const cs = "abcdefghijklmnopqrstuvwxyzABCDEFGHIJKLMNOPQRSTUVWXYZ0123456789"
 	b := make([]byte, n)
 	for i := range b {
@@ -763,7 +763,7 @@ func vfAlnum(r *rand.Rand, n int) []byte {
 // ---------------------------------------------------------------- calls
 
 // calls that wait for the network or for new events by design: a short deadline ends them
-func vfDeadline(rpc string, a vfShape) time.Duration {
+func vfsDeadline(rpc string, a vfsShape) time.Duration {
 	switch {
 	case rpc == "GroupDeviceStatus", rpc == "RefreshContactRequest":
 		return 50 * time.Millisecond
@@ -775,7 +775,7 @@ func vfDeadline(rpc string, a vfShape) time.Duration {
 	return 30 * time.Second
 }
 
-type vfOutcome struct {
+type vfsOutcome struct {
 	out   string // ok | err | panic
 	code  string
 	n     int
@@ -784,7 +784,7 @@ type vfOutcome struct {
 }
 
 // the first frame of the repository under the panic
-func vfSite(stack string) string {
+func vfsSite(stack string) string {
 	lines := strings.Split(stack, "\n")
 	seenPanic := false
 	for _, l := range lines {
@@ -795,7 +795,7 @@ func vfSite(stack string) string {
 		if !seenPanic || strings.HasPrefix(l, "\t") {
 			continue
 		}
-		if strings.HasPrefix(l, "berty.tech/weshnet/v2") && !strings.Contains(l, "vf") {
+		if strings.HasPrefix(l, "berty.tech/weshnet/v2") && !strings.HasPrefix(l, "berty.tech/weshnet/v2.vf") {
 			if i := strings.LastIndex(l, "("); i > 0 {
 				l = l[:i]
 			}
@@ -805,7 +805,7 @@ func vfSite(stack string) string {
 	return "?"
 }
 
-func vfShortStack(stack string) string {
+func vfsShortStack(stack string) string {
 	lines := strings.Split(stack, "\n")
 	out := []string{}
 	seenPanic := false
@@ -823,7 +823,7 @@ func vfShortStack(stack string) string {
 	return strings.Join(out, " <- ")
 }
 
-func vfErrCode(err error) string {
+func vfsErrCode(err error) string {
 	if err == nil {
 		return ""
 	}
@@ -838,17 +838,17 @@ func vfErrCode(err error) string {
 }
 
 // guarded runs f in its own goroutine under recover, with a watchdog
-func vfGuarded(what string, f func() (int, error)) vfOutcome {
-	ch := make(chan vfOutcome, 1)
+func vfsGuarded(what string, f func() (int, error)) vfsOutcome {
+	ch := make(chan vfsOutcome, 1)
 	go func() {
-		var o vfOutcome
+		var o vfsOutcome
 		defer func() {
 			if p := recover(); p != nil {
 				if ps, ok := p.(string); ok && strings.HasPrefix(ps, "VERIF-INFRA") {
 					panic(p)
 				}
 				st := string(debug.Stack())
-				o = vfOutcome{out: "panic", code: fmt.Sprint(p), site: vfSite(st), stack: vfShortStack(st)}
+				o = vfsOutcome{out: "panic", code: fmt.Sprint(p), site: vfsSite(st), stack: vfsShortStack(st)}
 				if len(o.code) > 120 {
 					o.code = o.code[:120]
 				}
@@ -858,7 +858,7 @@ func vfGuarded(what string, f func() (int, error)) vfOutcome {
 		n, err := f()
 		o.n = n
 		if err != nil {
-			o.out, o.code = "err", vfErrCode(err)
+			o.out, o.code = "err", vfsErrCode(err)
 		} else {
 			o.out = "ok"
 		}
@@ -869,29 +869,33 @@ func vfGuarded(what string, f func() (int, error)) vfOutcome {
 	case <-time.After(90 * time.Second):
 		vfInfra("call hung: %s", what)
 	}
-	return vfOutcome{}
+	return vfsOutcome{}
 }
 
-func (w *vfSvc) call(rpc string, a vfShape, req any, via string) vfOutcome {
-	inv, ok := vfInvokers[rpc]
+func (w *vfsSvc) call(rpc string, a vfsShape, req any, via string) vfsOutcome {
+	inv, ok := vfsInvokers[rpc]
 	if !ok {
 		vfInfra("no invoker for %q", rpc)
 	}
-	ctx, cancel := context.WithTimeout(w.ctx, vfDeadline(rpc, a))
+	dl := vfsDeadline(rpc, a)
+	if via == "grpc" && dl < time.Second {
+		dl *= 4 // leave an immediate answer the time to cross the in-memory connection
+	}
+	ctx, cancel := context.WithTimeout(w.ctx, dl)
 	defer cancel()
 	w.calls++
 	if via == "grpc" {
-		o := vfGuarded(rpc+" via grpc", func() (int, error) { return inv.grpc(w.tp.Client, ctx, proto.Clone(req.(proto.Message))) })
+		o := vfsGuarded(rpc+" via grpc", func() (int, error) { return inv.grpc(w.tp.Client, ctx, proto.Clone(req.(proto.Message))) })
 		if o.out == "err" && inv.stream && (o.code == codes.DeadlineExceeded.String() || o.code == codes.Canceled.String()) {
-			o.out = "ok" // the client ended an open-ended stream
+			o.out = "cut" // the client went away from an open-ended stream: no answer was observed
 		}
 		return o
 	}
-	return vfGuarded(rpc, func() (int, error) { return inv.direct(w.s, ctx, req, a.S) })
+	return vfsGuarded(rpc, func() (int, error) { return inv.direct(w.s, ctx, req, a.S) })
 }
 
 // healthy: can the service still be used after a recovered panic?
-func (w *vfSvc) healthy() bool {
+func (w *vfsSvc) healthy() bool {
 	if !w.s.lock.TryLock() {
 		return false
 	}
@@ -910,41 +914,41 @@ func (w *vfSvc) healthy() bool {
 
 // ---------------------------------------------------------------- helpers (stateless)
 
-func vfHelper(fn, cls string, r *rand.Rand) vfOutcome {
+func vfsHelper(fn, cls string, r *rand.Rand) vfsOutcome {
 	sized := func(valid int) []byte {
 		switch cls {
 		case "empty":
 			return []byte{}
 		case "short":
-			return vfBytes(r, 1+r.Intn(valid-1))
+			return vfsBytes(r, 1+r.Intn(valid-1))
 		case "over":
-			return vfBytes(r, valid+1+r.Intn(64))
+			return vfsBytes(r, valid+1+r.Intn(64))
 		case "garb":
-			return vfNonPoint(r)
+			return vfsNonPoint(r)
 		}
-		return vfBytes(r, valid)
+		return vfsBytes(r, valid)
 	}
-	key := vfBytes(r, 32)
+	key := vfsBytes(r, 32)
 	e := func(err error) (int, error) { return 0, err }
-	return vfGuarded("helper "+fn, func() (int, error) {
+	return vfsGuarded("helper "+fn, func() (int, error) {
 		switch fn {
 		case "AESGCMDecrypt":
 			ct, err := cryptoutil.AESGCMEncrypt(key, vfPayload(r, r.Intn(len(vfSizes))))
-			vfMustOK(err, "encrypt")
+			vfsMustOK(err, "encrypt")
 			var data []byte
 			switch cls {
 			case "empty":
 				data = []byte{}
 			case "short":
-				data = vfBytes(r, 1+r.Intn(11))
+				data = vfsBytes(r, 1+r.Intn(11))
 			case "nonce":
-				data = vfBytes(r, 12)
+				data = vfsBytes(r, 12)
 			case "garb":
-				data = vfBytes(r, 13+r.Intn(100))
+				data = vfsBytes(r, 13+r.Intn(100))
 			case "valid":
 				data = ct
 			case "badkey":
-				data, key = ct, vfBytes(r, []int{0, 1, 15, 33}[r.Intn(4)])
+				data, key = ct, vfsBytes(r, []int{0, 1, 15, 33}[r.Intn(4)])
 			}
 			pt, err := cryptoutil.AESGCMDecrypt(key, data)
 			_ = pt
@@ -955,27 +959,27 @@ func vfHelper(fn, cls string, r *rand.Rand) vfOutcome {
 				data = nil
 			}
 			if cls == "badkey" {
-				key = vfBytes(r, []int{0, 1, 15, 33}[r.Intn(4)])
+				key = vfsBytes(r, []int{0, 1, 15, 33}[r.Intn(4)])
 			}
 			_, err := cryptoutil.AESGCMEncrypt(key, data)
 			return e(err)
 		case "AESCTRStream":
-			iv := vfBytes(r, 16)
+			iv := vfsBytes(r, 16)
 			switch cls {
 			case "empty":
 				iv = []byte{}
 			case "short":
-				iv = vfBytes(r, 1+r.Intn(15))
+				iv = vfsBytes(r, 1+r.Intn(15))
 			case "over":
-				iv = vfBytes(r, 17+r.Intn(32))
+				iv = vfsBytes(r, 17+r.Intn(32))
 			case "badkey":
-				key = vfBytes(r, []int{1, 15, 33}[r.Intn(3)])
+				key = vfsBytes(r, []int{1, 15, 33}[r.Intn(3)])
 			case "nilkey":
 				key = nil
 			}
 			st, err := cryptoutil.AESCTRStream(key, iv)
 			if err == nil {
-				buf := vfBytes(r, 64)
+				buf := vfsBytes(r, 64)
 				st.XORKeyStream(buf, buf)
 			}
 			return e(err)
@@ -989,18 +993,18 @@ func vfHelper(fn, cls string, r *rand.Rand) vfOutcome {
 			var out [32]byte
 			b := sized(32)
 			if cls == "valid" {
-				_, b = vfNewKey()
+				_, b = vfsNewKey()
 			}
 			return e(cryptoutil.PublicKeyToCurve25519(&out, b))
 		case "ShareableContactCheckFormat", "ShareableContactGetPubKey":
-			sc := &protocoltypes.ShareableContact{Pk: sized(32), PublicRendezvousSeed: vfBytes(r, 32)}
+			sc := &protocoltypes.ShareableContact{Pk: sized(32), PublicRendezvousSeed: vfsBytes(r, 32)}
 			if cls == "valid" {
-				_, sc.Pk = vfNewKey()
+				_, sc.Pk = vfsNewKey()
 			}
 			// what an application does with a link: decode, then check
 			b, _ := proto.Marshal(sc)
 			sc2 := &protocoltypes.ShareableContact{}
-			vfMustOK(proto.Unmarshal(b, sc2), "contact round trip")
+			vfsMustOK(proto.Unmarshal(b, sc2), "contact round trip")
 			if fn == "ShareableContactGetPubKey" {
 				_, err := sc2.GetPubKey()
 				return e(err)
@@ -1008,15 +1012,15 @@ func vfHelper(fn, cls string, r *rand.Rand) vfOutcome {
 			return e(sc2.CheckFormat())
 		case "GroupIsValid", "GroupGetSigningPubKey", "GroupGetLinkKeyArray":
 			g, sk, err := NewGroupMultiMember()
-			vfMustOK(err, "group")
+			vfsMustOK(err, "group")
 			if cls != "valid" {
 				// an invitation made by whoever owns the group key: the signature is genuine, the secret is not 32 bytes
 				g.Secret = sized(32)
 				if cls == "garb" {
-					g.PublicKey = vfNonPoint(r)
+					g.PublicKey = vfsNonPoint(r)
 				} else {
 					g.SecretSig, err = sk.Sign(g.Secret)
-					vfMustOK(err, "sign")
+					vfsMustOK(err, "sign")
 				}
 				g.LinkKey = nil
 			}
@@ -1038,33 +1042,33 @@ func vfHelper(fn, cls string, r *rand.Rand) vfOutcome {
 
 // ---------------------------------------------------------------- script runner
 
-func vfShapeOf(st vfStep) vfShape {
+func vfsShapeOf(st vfStep) vfsShape {
 	g := func(k string) string {
 		if v, ok := st.A[k].(string); ok {
 			return v
 		}
 		return "-"
 	}
-	return vfShape{K: g("k"), P: g("p"), S: g("s")}
+	return vfsShape{K: g("k"), P: g("p"), S: g("s")}
 }
 
-type vfProgress struct {
+type vfsProgress struct {
 	f *os.File
 }
 
-func vfOpenProgress(worker int) *vfProgress {
+func vfsOpenProgress(worker int) *vfsProgress {
 	p := os.Getenv("VERIF_PROGRESS")
 	if p == "" {
-		return &vfProgress{}
+		return &vfsProgress{}
 	}
 	f, err := os.Create(fmt.Sprintf("%s.w%d", p, worker))
 	if err != nil {
 		vfInfra("progress file: %v", err)
 	}
-	return &vfProgress{f: f}
+	return &vfsProgress{f: f}
 }
 
-func (p *vfProgress) set(format string, a ...any) {
+func (p *vfsProgress) set(format string, a ...any) {
 	if p.f == nil {
 		return
 	}
@@ -1076,7 +1080,7 @@ func (p *vfProgress) set(format string, a ...any) {
 }
 
 // grpcPick: about a tenth of the calls are repeated through the gRPC client
-func vfGrpcPick(scriptID, step int) bool {
+func vfsGrpcPick(scriptID, step int) bool {
 	mode := os.Getenv("VERIF_GRPC")
 	if mode == "off" {
 		return false
@@ -1094,7 +1098,7 @@ func vfGrpcPick(scriptID, step int) bool {
 	return h%10 == 0
 }
 
-func vfRunScript(w *vfSvc, sc vfScript, prog *vfProgress, skip map[string]bool, emit func(map[string]any)) (replace bool) {
+func vfsRunScript(w *vfsSvc, sc vfScript, prog *vfsProgress, skip map[string]bool, emit func(map[string]any)) (replace bool) {
 	emit(map[string]any{"ev": "reset", "id": sc.ID})
 	rnd := vfRand(int64(sc.ID)*7919 + 13)
 	for i, st := range sc.Steps {
@@ -1102,11 +1106,11 @@ func vfRunScript(w *vfSvc, sc vfScript, prog *vfProgress, skip map[string]bool, 
 			fn, _ := st.A["fn"].(string)
 			cls, _ := st.A["c"].(string)
 			prog.set("%d %d helper %s %s", sc.ID, i, fn, cls)
-			o := vfHelper(fn, cls, rnd)
+			o := vfsHelper(fn, cls, rnd)
 			emit(map[string]any{"ev": "helper", "i": i, "fn": fn, "c": cls, "out": o.out, "code": o.code, "site": o.site, "stack": o.stack})
 			continue
 		}
-		a := vfShapeOf(st)
+		a := vfsShapeOf(st)
 		if skip[fmt.Sprintf("%d:%d", sc.ID, i)] {
 			continue
 		}
@@ -1125,7 +1129,7 @@ func vfRunScript(w *vfSvc, sc vfScript, prog *vfProgress, skip map[string]bool, 
 		}
 		ev["st"] = w.proj()
 		emit(ev)
-		if o.out != "panic" && vfGrpcPick(sc.ID, i) && !skip[fmt.Sprintf("%d:%d:grpc", sc.ID, i)] {
+		if o.out != "panic" && vfsGrpcPick(sc.ID, i) && !skip[fmt.Sprintf("%d:%d:grpc", sc.ID, i)] {
 			pre2 := w.proj()
 			// same shape, concretised again (fresh keys where the class says fresh)
 			req2 := w.build(st.Act, a, rnd)
@@ -1167,7 +1171,7 @@ func TestVerifServiceAPI(t *testing.T) {
 		wg.Add(1)
 		go func(wk int) {
 			defer wg.Done()
-			prog := vfOpenProgress(wk)
+			prog := vfsOpenProgress(wk)
 			gen := 0
 			for {
 				sc, ok := <-ch
@@ -1179,7 +1183,7 @@ func TestVerifServiceAPI(t *testing.T) {
 				t.Run(fmt.Sprintf("w%d_%d", wk, gen), func(t *testing.T) {
 					gen++
 					prog.set("%d setup", pending[0].ID)
-					w := vfNewSvc(t, int64(wk)*1000+int64(gen))
+					w := vfsNewSvc(t, int64(wk)*1000+int64(gen))
 					mu.Lock()
 					services++
 					mu.Unlock()
@@ -1208,7 +1212,7 @@ func TestVerifServiceAPI(t *testing.T) {
 								tr.mu.Unlock()
 							}
 						}
-						replace := vfRunScript(w, cur, prog, skip, emit)
+						replace := vfsRunScript(w, cur, prog, skip, emit)
 						tr.EmitBlock(evs)
 						tr.mu.Lock()
 						tr.w.Flush()
